@@ -8,9 +8,11 @@ import (
 	"path/filepath"
 	"sort"
 	"strings"
+	"unicode/utf8"
 
 	"github.com/pentops/j5/lib/verifshim/compile"
 	"github.com/pentops/j5/lib/verifshim/tool"
+	"google.golang.org/protobuf/encoding/prototext"
 	"google.golang.org/protobuf/proto"
 	"google.golang.org/protobuf/reflect/protodesc"
 	"google.golang.org/protobuf/reflect/protoreflect"
@@ -521,7 +523,62 @@ func runC05(cfg *vh.Config) error {
 	maxFileToks := map[string]int{"repo-proto": cfg.Scale(24000, 400000), "compiled": cfg.Scale(30000, 600000), "hand-built": 100000}
 	pendingFiles := map[string][]func(){}
 	var emitFile func(stream string, fd protoreflect.FileDescriptor, out rtOut, lost bool, where string, input any)
-	addFile := func(stream string, fd protoreflect.FileDescriptor, out rtOut, fails []rtFailure, where string, input any) {
+	// byte level: the same descriptor WITHOUT source code info (no locations, no comments: the sub-class of
+	// model/ProtoPrintBytes.v), printed by the real printer; the model's render_bytes must give these bytes
+	type bytesCaseRec struct {
+		term, where string
+		size        int
+	}
+	var bytesCases []bytesCaseRec
+	var pendingBytes []func()
+	bytesBudget := cfg.Scale(420000, 6000000)
+	bytesUsed := 0
+	addBytes := func(stream string, fd protoreflect.FileDescriptor, siblings map[string]string, where string, input any) {
+		sfd, err := strippedDescriptor(fd)
+		if err != nil {
+			res.Count("bytes:descriptor not rebuilt without source info")
+			return
+		}
+		rt, fails := roundTripOut(ctx, sfd, siblings)
+		res.Count("bytes:" + stream + " printed without source info")
+		// A descriptor without source info is not something the toolchain prints (compiled j5s files and parsed
+		// .proto files carry locations): it is the carrier of the byte-level tie. Reported here: the printer fails or
+		// panics, or its text does not parse / link. Observed and counted, not judged (outside the quantifier of
+		// the property): (a) printElements adds the blank line at a change of element type only when the previous
+		// element has a location, so the re-parsed (located) descriptor prints with more blank lines than the
+		// unlocated one; (b) without locations fields and oneofs sort by index alone, so a oneof moves in front of
+		// plain fields with a higher index and the re-parsed descriptor lists the fields in that order.
+		for _, f := range fails {
+			switch {
+			case strings.HasPrefix(f.Sig, "options on the value field of a map entry are not printed"):
+				// reported for the located descriptor of the same file
+			case strings.HasPrefix(f.Sig, "printing the reparsed descriptor does not reproduce the text"):
+				res.Count("bytes:unlocated descriptor, second print differs in blank lines (observed, not judged)")
+			case strings.HasPrefix(f.Sig, "descriptor differs after print+parse") && strings.Contains(f.Sig, "field["):
+				res.Count("bytes:unlocated descriptor, field order after re-parse differs (observed, not judged)")
+			default:
+				res.Fail(vh.Failure{Case: 0, Stream: "bytes", Sig: "C05 descriptor without source info (" + stream + ") -> " + f.Sig, Clause: f.Clause, Input: input, Got: f.Got})
+			}
+		}
+		if rt.Txt1 == "" {
+			return
+		}
+		pendingBytes = append(pendingBytes, func() {
+			dterm, _, un := dfilexTerm(sfd)
+			if un != "" {
+				res.Count("bytes:outside the model (" + failureClass(un) + ")")
+				return
+			}
+			term := fmt.Sprintf("CBytes %s %s %s\n %s", bt("verif"), impTerm(sfd), dterm, bt(rt.Txt1))
+			if bytesUsed+len(term) > bytesBudget {
+				res.Count("bytes:over the budget of this tier")
+				return
+			}
+			bytesUsed += len(term)
+			bytesCases = append(bytesCases, bytesCaseRec{term: term, where: where, size: len(rt.Txt1)})
+		})
+	}
+	addFile := func(stream string, fd protoreflect.FileDescriptor, out rtOut, fails []rtFailure, where string, input any, siblings map[string]string) {
 		lost := false
 		for _, f := range fails {
 			if strings.HasPrefix(f.Sig, "options on the value field of a map entry are not printed") {
@@ -535,6 +592,7 @@ func runC05(cfg *vh.Config) error {
 			return
 		}
 		fileSeen.Add(out.Txt1)
+		addBytes(stream, fd, siblings, where, input)
 		orders.file(fd)
 		orders.file(out.Fd2)
 		// which files get the full check within the token budget is drawn per run (pendingFiles, below), so that over
@@ -606,7 +664,7 @@ func runC05(cfg *vh.Config) error {
 			}
 			addOpts(fd, "repo-proto", input)
 			rt, fails := roundTripOut(ctx, fd, root.Files)
-			addFile("repo-proto", fd, rt, fails, root.Dir+"/"+name, input)
+			addFile("repo-proto", fd, rt, fails, root.Dir+"/"+name, input, root.Files)
 			if len(fails) == 0 {
 				res.Count("repo-proto:round trip ok")
 			} else {
@@ -619,7 +677,7 @@ func runC05(cfg *vh.Config) error {
 
 	// ------------------------------------------------------------ stream 1b: hand-built descriptors (pinned classes)
 	// file-level string options whose value needs escaping (printFile wrote them raw before /repo b69d449)
-	for i, val := range []string{"plain/pkg;name", "a\"b", "back\\slash", "line\nbreak\ttab", "quote'single", "caf\u00e9 \U0001F600", "\"\\\n\r\x01\x7f"} {
+	for i, val := range []string{"plain/pkg;name", "a\"b", "back\\slash", "line\nbreak\ttab", "quote'single", "caf\u00e9 \U0001F600", "\"\\\n\r\x01\x7f", "nul\x000 digit", "end\x00", "\x00f\x00"} {
 		caseNo++
 		res.Count("hand-built")
 		distinct.Add("hand:" + val)
@@ -650,7 +708,7 @@ func runC05(cfg *vh.Config) error {
 			continue
 		}
 		rt, fails := roundTripOut(ctx, fd, map[string]string{})
-		addFile("hand-built", fd, rt, fails, name, input)
+		addFile("hand-built", fd, rt, fails, name, input, map[string]string{})
 		if len(fails) == 0 {
 			res.Count("hand-built:round trip ok")
 		} else {
@@ -686,7 +744,7 @@ func runC05(cfg *vh.Config) error {
 			distinct.Add("hand-multiline")
 			input := map[string]any{"file": name, "source": files[name]}
 			rt, fails := roundTripOut(ctx, fd, files)
-			addFile("hand-built", fd, rt, fails, name, input)
+			addFile("hand-built", fd, rt, fails, name, input, files)
 			if len(fails) == 0 {
 				res.Count("hand-built:round trip ok")
 			} else {
@@ -721,13 +779,57 @@ func runC05(cfg *vh.Config) error {
 				distinct.Add("hand-pair:" + name)
 				input := map[string]any{"file": name, "files of the package, printed in this order": []string{"hand/v1/a.proto", "hand/v1/b.proto"}, "source": pair[name]}
 				rt, fails := roundTripOut(ctx, fd, pair)
-				addFile("hand-built", fd, rt, fails, name, input)
+				addFile("hand-built", fd, rt, fails, name, input, pair)
 				if len(fails) == 0 {
 					res.Count("hand-built:round trip ok")
 				} else {
 					res.Count("hand-built:round trip fails")
 				}
 				report("hand-built", "C05 two files of one package printed by one process", input, fails)
+			}
+		}
+	}
+
+	// ONE file referring to the SAME foreign type from scopes that differ in whether the first segment of the foreign
+	// package is shadowed by a nested message / enum of an enclosing message (there the printer must write
+	// `.bar.v1.Thing`), in both orders: unshadowed first (hold/v1/a.proto) and shadowed first (hold/v1/b.proto), and a
+	// deeper nesting where only the outer message declares the capturing name (seeded C05-J: a per-file memo of the
+	// cross-package name that ignores the scope)
+	{
+		set := map[string]string{
+			"bar/v1/thing.proto": "syntax = \"proto3\";\npackage bar.v1;\nmessage Thing { string x = 1; }\nenum Shade { SHADE_UNSPECIFIED = 0; }\n",
+			"hold/v1/a.proto": "syntax = \"proto3\";\npackage hold.v1;\nimport \"bar/v1/thing.proto\";\n" +
+				"message Plain { bar.v1.Thing t = 1; bar.v1.Shade s = 2; }\n" +
+				"message Holder {\n  message bar { string n = 1; }\n  .bar.v1.Thing t = 1;\n  bar inner = 2;\n  .bar.v1.Shade s = 3;\n}\n" +
+				"message HolderE {\n  enum bar { bar_UNSPECIFIED = 0; }\n  .bar.v1.Thing t = 1;\n  message Deep { .bar.v1.Thing t = 1; }\n}\n" +
+				"message After { bar.v1.Thing t = 1; }\n",
+			"hold/v1/b.proto": "syntax = \"proto3\";\npackage hold.v1;\nimport \"bar/v1/thing.proto\";\n" +
+				"message Holder2 {\n  message bar { string n = 1; }\n  .bar.v1.Thing t = 1;\n  repeated .bar.v1.Thing many = 2;\n  map<string, .bar.v1.Thing> by_name = 3;\n}\n" +
+				"message Plain2 { bar.v1.Thing t = 1; repeated bar.v1.Thing many = 2; }\n" +
+				"service Svc { rpc Get(bar.v1.Thing) returns (bar.v1.Thing) {} }\n",
+		}
+		names := []string{"hold/v1/a.proto", "hold/v1/b.proto"}
+		parsed, err := tool.ParseProto(ctx, set, names)
+		if err != nil {
+			res.Notes = append(res.Notes, "hand-built shadowed / unshadowed reference file does not parse: "+trim(err.Error(), 160))
+		}
+		for _, name := range names {
+			for _, fd := range parsed {
+				if fd.Path() != name {
+					continue
+				}
+				caseNo++
+				res.Count("hand-built")
+				distinct.Add("hand-shadow:" + name)
+				input := map[string]any{"file": name, "source": set[name], "imported": set["bar/v1/thing.proto"]}
+				rt, fails := roundTripOut(ctx, fd, set)
+				addFile("hand-built", fd, rt, fails, name, input, set)
+				if len(fails) == 0 {
+					res.Count("hand-built:round trip ok")
+				} else {
+					res.Count("hand-built:round trip fails")
+				}
+				report("hand-built", "C05 one file referring to a foreign type from a shadowed and an unshadowed scope", input, fails)
 			}
 		}
 	}
@@ -756,7 +858,7 @@ func runC05(cfg *vh.Config) error {
 				distinct.Add("hand-pair:" + name)
 				input := map[string]any{"file": name, "files of the package, printed in this order": []string{"other/v1/r.proto", "other/v1/q.proto"}, "source": pair[name]}
 				rt, fails := roundTripOut(ctx, fd, pair)
-				addFile("hand-built", fd, rt, fails, name, input)
+				addFile("hand-built", fd, rt, fails, name, input, pair)
 				if len(fails) == 0 {
 					res.Count("hand-built:round trip ok")
 				} else {
@@ -817,7 +919,7 @@ func runC05(cfg *vh.Config) error {
 			res.Count("compiled-file")
 			addOpts(f, "compiled", map[string]any{"package": p.Pkg, "file": f.Path(), "j5s": src})
 			rt, fails := roundTripOut(ctx, f, siblings)
-			addFile("compiled", f, rt, fails, p.Pkg+" "+f.Path(), map[string]any{"package": p.Pkg, "file": f.Path(), "j5s": src})
+			addFile("compiled", f, rt, fails, p.Pkg+" "+f.Path(), map[string]any{"package": p.Pkg, "file": f.Path(), "j5s": src}, siblings)
 			if len(fails) > 0 {
 				ok = false
 				in2 := map[string]any{"package": p.Pkg, "file": f.Path(), "j5s": src}
@@ -841,8 +943,11 @@ func runC05(cfg *vh.Config) error {
 	for i := range all {
 		all[i] = byte(i)
 	}
-	strs = append(strs, "", string(all), "plain", "\"", "\\", "'", "\x00", "\x7f", "\x80", "\xff", "é", "€", "😀", "\xed\xa0\x80", "\xf4\x90\x80\x80", "\xc0\x80", "\xe2\x82", "a\xffb", " \u009f", "�", " ", "tab\there", "nl\nhere", "cr\rhere", "^[a-z\"\\\\]+$")
-	pieces := []string{"a", "Z", "0", " ", "\"", "\\", "'", "\n", "\t", "\r", "\x01", "\x1f", "\x7f", "\x80", "\xbf", "\xc2", "\xc3\xa9", "\xe2\x82\xac", "\xf0\x9f\x98\x80", "\xed\xa0\x80", "\xff", "\xfe", "\u0080", "߿", "ࠀ", "￿", "\U00010000", "\U0010ffff", "x1", "\\n", "\\x", "?"}
+	strs = append(strs, "", string(all), "plain", "\"", "\\", "'", "\x00", "\x7f", "\x80", "\xff", "é", "€", "😀", "\xed\xa0\x80", "\xf4\x90\x80\x80", "\xc0\x80", "\xe2\x82", "a\xffb", " \u009f", "�", " ", "tab\there", "nl\nhere", "cr\rhere", "^[a-z\"\\\\]+$",
+		// NUL followed by a digit / hex digit and NUL at the end (a \x escape that is not exactly two digits swallows or
+		// leaves a digit)
+		"\x000", "\x00f", "\x00A", "a\x00", "\x00\x00", "\x009z", "0\x000\x00")
+	pieces := []string{"a", "Z", "0", " ", "\"", "\\", "'", "\n", "\t", "\r", "\x01", "\x1f", "\x7f", "\x80", "\xbf", "\xc2", "\xc3\xa9", "\xe2\x82\xac", "\xf0\x9f\x98\x80", "\xed\xa0\x80", "\xff", "\xfe", "\u0080", "߿", "ࠀ", "￿", "\U00010000", "\U0010ffff", "x1", "\\n", "\\x", "?", "\x00", "\x000", "\x00f", "\x00B", "7", "c"}
 	for len(strs) < nLit {
 		switch rl.Intn(3) {
 		case 0:
@@ -863,7 +968,13 @@ func runC05(cfg *vh.Config) error {
 		// the real protocompile lexer on the printed literal (file option java_package; bytes round trip
 		// needs valid UTF-8 for a string field, so invalid inputs are only checked against the model)
 		lexOK, lexVal := lexWithProtocompile(ctx, lit)
-		validUTF8 := strings.ToValidUTF8(s, "\x00\x01") == s && !strings.ContainsRune(s, 0)
+		validUTF8 := utf8.ValidString(s)
+		// the printed literal read back by the real text-format unescaper (google.golang.org/protobuf/encoding/prototext,
+		// a bytes field as carrier: every byte string incl. NUL and invalid UTF-8 is a legal value): the bytes the
+		// literal denotes must be the bytes it was printed from
+		if back, err := prototextUnescape(lit); err != nil || back != s {
+			res.Fail(vh.Failure{Case: caseNo, Stream: "literal", Sig: "C05 string literal printed by prototextString is not read back as the same bytes by the prototext unescaper", Clause: "every option and extension value", Input: fmt.Sprintf("%q", s), Got: fmt.Sprintf("literal %s read back as %q (err %v)", lit, back, err)})
+		}
 		if validUTF8 && (!lexOK || lexVal != s) {
 			res.Fail(vh.Failure{Case: caseNo, Stream: "literal", Sig: "C05 string literal printed by prototextString is not read back by the protocompile lexer", Clause: "every option and extension value", Input: fmt.Sprintf("%q", s), Got: fmt.Sprintf("literal %s lexed ok=%v %q", lit, lexOK, lexVal)})
 		}
@@ -986,6 +1097,33 @@ func runC05(cfg *vh.Config) error {
 	if err != nil {
 		return err
 	}
+	// byte level: a fifth family of shards
+	bf := &vh.CasesFile{
+		Header: "From Coq Require Import String List NArith ZArith.\nFrom J5V.model Require Import ProtoPrintLit ProtoPrint ProtoLex ProtoPrintCorr ProtoPrintFile ProtoPrintFileX ProtoPrintBytes ProtoPrintBytesCorr.",
+		Type:   "c05bytes",
+		Check:  "c05_bytes_check",
+	}
+	const perBytes = 5
+	bpick := cfg.R.Fork("c05-bytes-pick")
+	for i := len(pendingBytes) - 1; i > 0; i-- {
+		j := bpick.Intn(i + 1)
+		pendingBytes[i], pendingBytes[j] = pendingBytes[j], pendingBytes[i]
+	}
+	for _, f := range pendingBytes {
+		f()
+	}
+	for i, c := range bytesCases {
+		caseNo++
+		res.Count("bytes")
+		distinct.Add("bytes:" + c.where + fmt.Sprint(c.size, len(c.term)))
+		bf.Terms = append(bf.Terms, c.term)
+		res.Cases = append(res.Cases, vh.CaseRec{Case: caseNo, Stream: "bytes", Shard: fmt.Sprintf("bytes_%d", i/perBytes), Pos: i % perBytes, Input: c.where, Impl: fmt.Sprintf("%d bytes printed", c.size)})
+		res.Sample(map[string]any{"stream": "bytes", "file": c.where, "bytes": c.size}, 6)
+	}
+	bshards, err := bf.WriteShards(cfg.Out, "bytes", perBytes)
+	if err != nil {
+		return err
+	}
 	// order decisions: a fourth family of shards
 	od := &vh.CasesFile{
 		Header: "From Coq Require Import String List NArith ZArith.\nFrom J5V.model Require Import ProtoPrintLit ProtoPrint ProtoPrintCorr ProtoPrintFile ProtoPrintFileCorr.",
@@ -1008,7 +1146,7 @@ func runC05(cfg *vh.Config) error {
 	}
 	res.Evaluations = caseNo
 	res.Distinct = len(distinct)
-	res.Shards = append(append(append(shards, oshards...), fshards...), odshards...)
+	res.Shards = append(append(append(append(shards, oshards...), fshards...), odshards...), bshards...)
 	return res.Write(cfg.Out)
 }
 
@@ -1026,4 +1164,19 @@ func lexWithProtocompile(ctx context.Context, lit string) (ok bool, val string) 
 	}
 	opts, _ := files[0].Options().(*descriptorpb.FileOptions)
 	return true, opts.GetJavaPackage()
+}
+
+// prototextUnescape reads a printed string literal with the real text-format parser of google.golang.org/protobuf
+// (UninterpretedOption.string_value, a bytes field, is the carrier) and returns the bytes it denotes.
+func prototextUnescape(lit string) (val string, err error) {
+	defer func() {
+		if p := recover(); p != nil {
+			err = fmt.Errorf("panic: %v", p)
+		}
+	}()
+	var m descriptorpb.UninterpretedOption
+	if err := prototext.Unmarshal([]byte("string_value: "+lit), &m); err != nil {
+		return "", err
+	}
+	return string(m.GetStringValue()), nil
 }
